@@ -9,6 +9,7 @@ from mzverif import gen as G
 from mzverif import lib as L
 from mzverif import model as M
 from mzverif.core import Discard, Sub, call, require
+from mzverif.core import scribble as core_scribble
 
 ID = "C07"
 LEVEL = "exploration"
@@ -94,32 +95,51 @@ def check(case: dict):
 
 
 def check_dataset(case: dict):
-    from maze_dataset import MazeDataset, MazeDatasetConfig
+    """dataset-level tokenization: a sequence of as_tokens calls (limit x join) on ONE dataset object - a plain dataset or a collection
+    of datasets (split given by `members`); every call must return the per-maze tokenization of the first min(limit, len) mazes in order"""
+    from maze_dataset import MazeDataset, MazeDatasetCollection, MazeDatasetCollectionConfig, MazeDatasetConfig
 
     n, items, mode, flavour = case["n"], case["items"], case["mode"], case["flavour"]
     np.random.seed(case["np_seed"] % (2**32))
-    ds = MazeDataset(MazeDatasetConfig(name="t", grid_n=n, n_mazes=len(items)), [L.solved(it["g"], it["sol"], dtype=L.provenance([case, i], it["g"])) for i, it in enumerate(items)])
+    mazes = [L.solved(it["g"], it["sol"], dtype=L.provenance([case, i], it["g"])) for i, it in enumerate(items)]
+    split = case.get("members")
+    if split:
+        cfgs, members, k0 = [], [], 0
+        for j, ln in enumerate(split):
+            cfgs.append(MazeDatasetConfig(name=f"t{j}", grid_n=n, n_mazes=ln))
+            members.append(MazeDataset(cfgs[-1], mazes[k0 : k0 + ln]))
+            k0 += ln
+        ds = MazeDatasetCollection(MazeDatasetCollectionConfig(name="tc", maze_dataset_configs=cfgs), members)
+        holder = "collection"
+    else:
+        ds = MazeDataset(MazeDatasetConfig(name="t", grid_n=n, n_mazes=len(items)), mazes)
+        holder = "dataset"
     tok = _tokenizer(mode, flavour, None)
-    limit, join = case["limit"], case["join"]
-    sig = f"C07:dataset:{flavour}"
-    kw = {}
-    if limit != "none":
-        kw["limit"] = limit
-    if join is not None:
-        kw["join_tokens_individual_maze"] = join
-    out = call(f"{sig}:as_tokens", ds.as_tokens, tok, **kw)
-    want_n = len(items) if limit == "none" else min(limit, len(items))
-    require(isinstance(out, list) and len(out) == want_n, f"{sig}:count", f"{len(out)} entries for limit={limit}, join={join}, {len(items)} mazes (expected {want_n})")
-    for i, ent in enumerate(out):
-        if join:
-            require(isinstance(ent, str), f"{sig}:join-type", f"entry {i} is {type(ent).__name__}, expected str")
-            toks = ent.split(" ")
-        else:
-            require(isinstance(ent, list), f"{sig}:join-type", f"entry {i} is {type(ent).__name__}, expected list")
-            toks = ent
-        prob = M.check_stream(_params(mode), toks, "solved", items[i]["g"], items[i]["sol"])
-        require(prob is None, f"{sig}:entry-not-maze-i", f"entry {i} (limit={limit}, join={join}) does not encode maze {i}: {prob}")
-    return {"nt": len(items) >= 2 and n >= 3, "labels": [mode, flavour, f"limit:{'none' if limit == 'none' else ('0' if limit == 0 else ('lt' if limit < len(items) else 'ge'))}", f"join:{join}"]}
+    sig = f"C07:{holder}:{flavour}"
+    calls = case.get("calls") or [[case["limit"], case["join"]]]
+    labels = [mode, flavour, holder, f"calls:{min(len(calls), 3)}"]
+    for step, (limit, join) in enumerate(calls):
+        kw = {}
+        if limit != "none":
+            kw["limit"] = limit
+        if join is not None:
+            kw["join_tokens_individual_maze"] = join
+        out = call(f"{sig}:as_tokens", ds.as_tokens, tok, **kw)
+        hist = f" (call {step + 1} of {calls} on the same object)" if len(calls) > 1 else ""
+        want_n = len(items) if limit == "none" else min(limit, len(items))
+        require(isinstance(out, list) and len(out) == want_n, f"{sig}:count", f"{len(out)} entries for limit={limit}, join={join}, {len(items)} mazes (expected {want_n}){hist}")
+        for i, ent in enumerate(out):
+            if join:
+                require(isinstance(ent, str), f"{sig}:join-type", f"entry {i} is {type(ent).__name__}, expected str{hist}")
+                toks = ent.split(" ")
+            else:
+                require(isinstance(ent, list), f"{sig}:join-type", f"entry {i} is {type(ent).__name__}, expected list{hist}")
+                toks = ent
+            prob = M.check_stream(_params(mode), toks, "solved", items[i]["g"], items[i]["sol"])
+            require(prob is None, f"{sig}:entry-not-maze-i", f"entry {i} (limit={limit}, join={join}) does not encode maze {i}: {prob}{hist}")
+        labels += [f"limit:{'none' if limit == 'none' else ('0' if limit == 0 else ('lt' if limit < len(items) else 'ge'))}", f"join:{join}"]
+        core_scribble(out)
+    return {"nt": len(items) >= 2 and n >= 3, "labels": labels}
 
 
 @st.composite
@@ -164,9 +184,16 @@ def _dataset(draw, hi):
     n = draw(st.sampled_from([2, 3, 4, 5, 11]))
     items = draw(st.lists(G.solved_case(lo=n, hi=n, square=True, connected=True), min_size=1, max_size=5))
     items = [{"g": it["g"], "sol": it["sol"]} for it in items]
-    limit = draw(st.sampled_from(["none", 0, 1, 2, len(items), len(items) + 3]))
-    return {"n": n, "items": items, "mode": draw(st.sampled_from(MODES)), "flavour": draw(st.sampled_from(["legacy", "modular"])),
-            "limit": limit, "join": draw(st.sampled_from([None, False, True, True])), "np_seed": draw(st.integers(0, 2**32 - 1))}
+    lim = st.sampled_from(["none", "none", 0, 1, 2, len(items), len(items) + 3])
+    calls = draw(st.lists(st.tuples(lim, st.sampled_from([None, False, True, True])).map(list), min_size=1, max_size=4))
+    case = {"n": n, "items": items, "mode": draw(st.sampled_from(MODES)), "flavour": draw(st.sampled_from(["legacy", "modular"])),
+            "calls": calls, "np_seed": draw(st.integers(0, 2**32 - 1))}
+    if draw(st.booleans()):
+        # the same mazes held by a collection of datasets (members may be empty)
+        cuts = sorted(draw(st.lists(st.integers(0, len(items)), min_size=1, max_size=3)))
+        bounds = [0] + cuts + [len(items)]
+        case["members"] = [b - a for a, b in zip(bounds[:-1], bounds[1:])]
+    return case
 
 
 def subs(tier: str):
